@@ -108,6 +108,20 @@ def decode_wrap(ctx):
     ctx.require(dec, "decode_raw_stream never decodes with the chosen encoding")
     for d in dec:
         ctx.check(in_try_handling(d, "UnicodeDecodeError", "UnicodeError", "ValueError", "Exception"), "decode-in-try", db.where(d), "text.decode(...) is not inside a try that handles UnicodeDecodeError: undecodable input escapes as a raw UnicodeDecodeError", "inside try/except UnicodeDecodeError")
+    # a lenient decode (errors='ignore' / 'replace') only serves to look for the comment: its result is never returned as the template text
+    rr_ = flow.Reaching(fn)
+    lenient = lambda e_: isinstance(e_, ast.Call) and isinstance(e_.func, ast.Attribute) and e_.func.attr == "decode" and (len(e_.args) >= 2 and const(e_.args[1]) != "strict" or any(k_.arg == "errors" and const(k_.value) != "strict" for k_ in e_.keywords))
+    leaks = []
+    for r_ in walk_func(fn):
+        if isinstance(r_, ast.Return) and isinstance(r_.value, ast.Tuple) and len(r_.value.elts) == 2:
+            tv = r_.value.elts[1]
+            if lenient(tv):
+                leaks.append(r_)
+            elif isinstance(tv, ast.Name):
+                for d_ in rr_.defs_at(r_, tv.id):
+                    if isinstance(d_, ast.Assign) and lenient(d_.value):
+                        leaks.append(r_)
+    ctx.check(not leaks, "no-lenient-result", db.where(leaks[0]) if leaks else db.where(fn), "decode_raw_stream returns text decoded with errors='ignore': undecodable input is silently truncated instead of raising CompileException", "returned text is the input, the input minus the BOM, or a strict decode")
     hs = [h for t in walk_func(fn) if isinstance(t, ast.Try) for h in t.handlers]
     for h in hs:
         rs = [r for r in ast.walk(h) if isinstance(r, ast.Raise)]
